@@ -27,7 +27,9 @@ MIN = {"quick": {"noisy==clean": 10000, "model:has_interaction(u,v,t)": 50000, "
 REQUIRED_CELLS = {t: ("noise:blank", "noise:whitespace", "noise:comment", "noise:indented-comment",
                       "noise:trailing-comment", "noise:short-row", "noise:extra-columns", "noise:padding",
                       "reader:snapshots", "reader:interactions", "keys:snapshots3", "keys:snapshots4",
-                      "keys:interactions") for t in ("quick", "thorough")}
+                      "keys:interactions", "conv:nodetype=str", "conv:nodetype=int", "conv:timestamps x60",
+                      "typeerror:lookup", "typeerror:zerodiv", "compact:beyond-2**53", "keys:beyond-2**53")
+                  for t in ("quick", "thorough")}
 
 
 def valid_rows(rng, reader, m):
@@ -147,20 +149,57 @@ def noise_case(ctx, dn, lines_override=None):
     ctx.cell("reader:" + reader)
     ctx.case = dict(workload="NOISE", reader=reader, directed=directed, delimiter=delim, comments=marker,
                     lines=lines, clean=clean, via_file=via)
+    # the converters vary from one parse to the next in the same process (int / str ids; plain or scaled
+    # integer timestamps): a conversion is a function of the field AND the requested type
+    nconv = rng.choice((int, int, str))
+    scale = rng.choice((1, 1, 60))
+    tconv = int if scale == 1 else (lambda x: int(x) * 60)
+    ctx.cell("conv:nodetype=%s" % nconv.__name__)
+    ctx.cell("conv:timestamps x%d" % scale)
     try:
-        A = parse(dn, reader, lines, delim, marker, via, directed)
-        B = parse(dn, reader, clean, delim, marker, False, directed)
+        A = parse(dn, reader, lines, delim, marker, via, directed, nodetype=nconv, timestamptype=tconv)
+        B = parse(dn, reader, clean, delim, marker, False, directed, nodetype=nconv, timestamptype=tconv)
     except Exception as ex:
         if raised_in_library(ex):
             ctx.violation("noisy:raised", dict(exception=repr(ex), lines=lines))
             return
         raise
     ctx.expect("noisy==clean", observe.diff(observe.snapshot(B), observe.snapshot(A)), [], dict(lines=lines))
-    h = iohelp.retype(m)
+    h = iohelp.retype(m, conv=nconv)
+    if scale != 1:
+        # a span t..e-1 read with scaled stamps is t*60 .. e*60-1: rebuild the expectation from the rows
+        h = rows_model(rows, reader, directed, nconv, scale)
     guarded(ctx, "model:audit", audit.audit_all, ctx, dn, A, h, "model:", ("C01", "C03", "C04"))
     ctx.nontrivial(tuple(lines), reader, delim)
     if len(ctx.samples) < 4 and rng.random() < 0.02:
         ctx.sample(ctx.case)
+
+
+def rows_model(rows, reader, directed, nconv, scale):
+    """model of the graph described by field rows when ids go through nconv and stamps are multiplied"""
+    h = Model(directed, True)
+    if reader == "snapshots":
+        for r in rows:
+            h.apply(nconv(str(r[0])), nconv(str(r[1])), r[2] * scale, r[3] * scale if len(r) == 4 else None)
+    else:
+        ev = [(nconv(str(r[0])), nconv(str(r[1])), r[2], r[3] * scale) for r in rows]
+        P, err = audit.replay_stream(ev, h.key)
+        for (u, v, op, t) in ev:
+            k = h.key(u, v)
+            if k not in h.orient:
+                h.orient[k] = (u, v)
+                h.nodes.setdefault(u, {})
+                h.nodes.setdefault(v, {})
+        for k, sset in P.items():
+            h.P[k] = sset
+            h.first[k] = min(sset)
+    return h
+
+
+class Lookup(dict):
+    """a converter that fails with KeyError for unknown fields"""
+    def __call__(self, x):
+        return self[x]
 
 
 def typeerror_case(ctx, dn):
@@ -179,10 +218,18 @@ def typeerror_case(ctx, dn):
     fields[pos] = rng.choice(("x", "1.5", "t3", "1e", "--"))
     lines = [d.join(good), d.join(fields)]
     ctx.cases += 1
-    ctx.case = dict(workload="TYPEERROR", reader=reader, delimiter=delim, lines=lines)
+    # whatever way the conversion fails (ValueError from int, KeyError from a lookup table, ZeroDivisionError,
+    # ...) the reader reports TypeError
+    how = rng.choice(("int", "int", "lookup", "zerodiv"))
+    ctx.cell("typeerror:" + how)
+    table = Lookup({str(i): i for i in range(10)})
+    bad = (lambda x: int(x) if x.lstrip("-").isdigit() else 1 // 0)
+    conv = {"int": int, "lookup": table, "zerodiv": bad}[how]
+    extra = dict(nodetype=conv) if bad_node else dict(timestamptype=conv)
+    ctx.case = dict(workload="TYPEERROR", reader=reader, delimiter=delim, lines=lines, converter=how)
     got = None
     try:
-        parse(dn, reader, lines, delim, "#", rng.random() < 0.5, False)
+        parse(dn, reader, lines, delim, "#", rng.random() < 0.5, False, **extra)
     except Exception as ex:
         got = type(ex).__name__
     ctx.expect("typeerror", got, "TypeError", dict(lines=lines))
@@ -193,8 +240,14 @@ def compact_case(ctx, dn):
     rng = ctx.rng
     from dynetx.utils import compact_timeslot
     n = rng.randint(1, 12)
-    scale = rng.choice((10, 1000, 10 ** 12))
-    vals = [rng.randint(-scale, scale) for _ in range(n)]
+    scale = rng.choice((10, 1000, 10 ** 12, "ns"))
+    if scale == "ns":
+        # nanosecond epochs beyond 2**53, a few ns apart (indistinguishable as floats), in arbitrary order
+        base = 2 ** 60 + rng.randint(0, 10 ** 6)
+        vals = [base + rng.randint(0, 40) for _ in range(n)]
+        ctx.cell("compact:beyond-2**53")
+    else:
+        vals = [rng.randint(-scale, scale) for _ in range(n)]
     given = list(vals)
     if rng.random() < 0.3:
         given += rng.sample(vals, 1)          # duplicates in the input
@@ -221,6 +274,7 @@ def keys_case(ctx, dn):
     directed = rng.random() < 0.5
     delim = rng.choice(iohelp.DELIMS)
     scale = rng.choice((1, 7, 1000))
+    offset = rng.choice((0, 0, 2 ** 60))          # nanosecond-epoch sized stamps, a few units apart
     m = Model(directed, True)
     for _ in range(6):
         rows = valid_rows(rng, reader, m)
@@ -235,7 +289,9 @@ def keys_case(ctx, dn):
         return
     # spread the timestamps so that ranks differ from values (strictly increasing map)
     ts = sorted(set(x for r in rows for x in (r[2:] if reader == "snapshots" else r[3:])))
-    spread = {t: t * scale + (3 if scale > 1 else 0) for t in ts}
+    spread = {t: t * scale + (3 if scale > 1 else 0) + offset for t in ts}
+    if offset:
+        ctx.cell("keys:beyond-2**53")
     rows = [[r[0], r[1]] + [spread[x] for x in r[2:]] if reader == "snapshots" else [r[0], r[1], r[2], spread[r[3]]]
             for r in rows]
     allts = sorted(set(x for r in rows for x in (r[2:] if reader == "snapshots" else r[3:])))
